@@ -310,6 +310,77 @@ def run(ctx):
     if not fr or rc.read_string(fr[0][2], 0)[0] != 'ProfileName':
         ctx.violation('login start does not name the authenticated profile', {'frames': repr(fr)[:200]},
                       key={'kind': 'profile-name'})
+    # ---- the same object used again.  (A) a login session in which the server switched compression on ends; a plain status
+    # query on the same object must go out in plain framing and run its handlers.  (B) a negotiation that ends in a version
+    # mismatch leaves the allowed set as the application gave it: a retry asks the server again and logs in with a version
+    # that is allowed.
+    for trial in range(ctx.scale(8, 40)):
+        v1 = rng.choice([47, 340, 757])
+        first = {'version': v1, 'script': [('compress', rng.choice([0, 64, 256])), ('success',), ('play_disconnect', '{"text":"bye"}')]}
+        second = {'version': v1, 'status': ('json', json.dumps({'description': 'again', 'n': trial}))}
+        cfgs, made, calls = [first, second], [], []
+
+        def factory(sock, cfgs=cfgs, made=made):
+            srv = RefServer(sock, cfgs[min(len(made), len(cfgs) - 1)])
+            made.append(srv)
+            return srv
+        with simnet.Net(factory) as net:
+            conn = C.Connection('h', 25565, username='u', allowed_versions={v1}, handle_exception=lambda e, i: calls.append(('exc', type(e).__name__)),
+                                handle_exit=lambda: calls.append(('exit',)))
+            conn.connect()
+            net.run_threads()
+            do_ping = trial % 2 == 0
+            conn.status(handle_status=lambda d: calls.append(('status', d)), handle_ping=(lambda ms: calls.append(('latency', ms))) if do_ping else False)
+            net.run_threads()
+        ctx.case(('status-after-compressed-session', trial, v1, do_ping))
+        ctx.count('reuse.status-after-compressed-session')
+        s2 = made[1] if len(made) > 1 else None
+        st = [c for c in calls if c[0] == 'status']
+        lat = [c for c in calls if c[0] == 'latency']
+        if s2 is None or s2.errors or s2.handshake is None or s2.handshake.get('next') != 1 or len(st) != 1 or st[0][1] != {'description': 'again', 'n': trial} \
+                or len(lat) != (1 if do_ping else 0) or any(c[0] == 'exc' for c in calls) or calls.count(('exit',)) != 2:
+            ctx.violation('a login session with compression ends (server disconnect), then status() on the same object: the status server read '
+                          'handshake %r (parse errors %r); handler calls %r'
+                          % (s2 and s2.handshake, s2 and s2.errors[:1], [c[0] for c in calls]),
+                          {'version': v1, 'ping': do_ping}, key={'kind': 'status-after-compressed-session', 'ping': do_ping})
+    for trial in range(ctx.scale(8, 40)):
+        allowed = rng.sample([47, 340, 498, 578, 757], 2)
+        off = rng.choice([x for x in SUP if x not in allowed] + [99999]) if trial % 4 else rng.choice(unsupported)
+        good = rng.choice(allowed)
+        reply = lambda pv: ('json', json.dumps({'version': {'name': 'x', 'protocol': pv}, 'description': 'd'}))
+        cfgs = [{'version': 47, 'status': reply(off), 'close_after_status': True, 'script': [('close',)]},
+                {'version': 47, 'status': reply(good), 'close_after_status': True, 'script': [('close',)]},
+                {'version': good, 'script': [('success',)]}]
+        made, excs = [], []
+
+        def factory(sock, cfgs=cfgs, made=made):
+            srv = RefServer(sock, cfgs[min(len(made), len(cfgs) - 1)])
+            made.append(srv)
+            return srv
+        with simnet.Net(factory) as net:
+            conn = C.Connection('h', 25565, username='u', allowed_versions=set(allowed), handle_exception=lambda e, i: excs.append(e))
+            conn.connect()
+            net.run_threads()
+            after_first = sorted(conn.allowed_proto_versions)
+            second_error = None
+            try:
+                conn.connect()
+                net.run_threads()
+            except Exception as e:
+                second_error = repr(e)
+        ctx.case(('retry-after-mismatch', trial, tuple(allowed), off, good))
+        ctx.count('reuse.retry-after-mismatch')
+        hs = [m_.handshake for m_ in made]
+        ok = len(excs) == 1 and isinstance(excs[0], VersionMismatch) and after_first == sorted(allowed) and second_error is None \
+            and len(made) == 3 and hs[1] is not None and hs[1].get('next') == 1 \
+            and hs[2] is not None and hs[2].get('next') == 2 and hs[2].get('protocol') == good
+        if not ok:
+            ctx.violation('allowed %r: the server first reports protocol %d (version mismatch), the application retries and the server now '
+                          'reports %d: errors %r, allowed set after the mismatch %r, second connect %s, handshakes seen by the servers %r'
+                          % (sorted(allowed), off, good, [type(e).__name__ for e in excs], after_first, second_error or 'returned',
+                             [(h_ or {}).get('protocol') for h_ in hs]),
+                          {'allowed': sorted(allowed), 'reported_first': off, 'reported_second': good},
+                          key={'kind': 'retry-after-mismatch', 'allowed': sorted(allowed), 'off': off})
     # ------------------------------------------------------------------ plain status query
     lines, impl = [], []
     slines, simpl = [], []
